@@ -101,7 +101,7 @@ def run(ctx):
         n_id += 1
         if 'chain' in comps6:
             continue
-        ctx.ob('C05.R6', 'identity-without-chain:%s.%s:%s' % (fid6[0], fid6[1], canon(fn6).key(node6)[:100]),
+        ctx.ob('C05.R6', 'identity-without-chain:%s.%s:%s' % (fid6[0], fid6[1], c06.decision_key(fn6, node6)[:100]),
                False, 'residue identity decision in %s.%s is built from %s only: equally numbered '
                'residues of different chains (e.g. of two structures in one file) are confused'
                % (fid6[0], fid6[1], sorted(comps6)), mod6, node6)
@@ -344,7 +344,8 @@ def run(ctx):
                             for e, p in flatten_and(stmt.test, False):
                                 t = norm(e)
                                 for a in atoms:
-                                    if t == '%s is None' % a:
+                                    # facts are read positively: not (X is None) == X is not None
+                                    if (t == '%s is not None' % a and p) or (t == '%s is None' % a and not p):
                                         handled.add(a)
                     elif isinstance(stmt, ast.Assert):
                         continue
@@ -401,8 +402,8 @@ def _lemma_same_lists(prog, cg, fid, node):
     hp = func_params(hbi)
     lists = ['%s.get_interaction_atoms(%s)' % (hp[0], hp[1]), '%s.get_interaction_atoms(%s)' % (hp[1], hp[0])]
     gsd_call = 'get_smallest_distance(%s, %s)' % tuple(lists)
-    neg = {can.text(e) for e, p in facts_at(calls[0], hbi) if not p}
-    guarded = {gsd_call + '[0] is None', gsd_call + '[2] is None'} <= neg
+    pos = {can.text(e) for e, p in facts_at(calls[0], hbi) if p}
+    guarded = {gsd_call + '[0] is not None', gsd_call + '[2] is not None'} <= pos
     same = [can.text(a) for a in calls[0].args][:2] == hp[:2]
     fn = prog.mod('energy').func('check_coo_coo_exception')
     fp = func_params(fn)
